@@ -69,8 +69,8 @@ static void run_document_backend(Fixture& fx, const Entry& en, const std::string
     try {
         if (!doc.has_errors()) {
             for (size_t k = 0; k < b.getExpressions().size(); k++) walk_str(b.getExpressions()[k]);
-            (void)dump_document(doc);
             TypeChecker tc{doc}; doc.accept(tc); FeatureChecker fc{doc};
+            if (!doc.has_errors()) (void)dump_document(doc);   // printing only of what the whole pipeline accepted
         }
     } catch (std::exception&) { outcome = "std::exception"; }
     // whatever happened above, the next parse in this process (a fresh document and builder) behaves as in a fresh process
@@ -200,5 +200,75 @@ extern "C" void harness_long_identifier()  /* vf: tier=quick bounds=identifier_o
     vf_budget(4 * BUDGET);
     try { parse_XTA(text.c_str(), &b, true, S_DECLARATION, "/d"); (void)dump_document(doc); } catch (std::exception&) {}
     vf_budget(-1);
+    vf_reach("end");
+}
+
+// semantically wrong but syntactically plausible blocks: error paths of the builders (duplicate definitions, wrong kinds, bad references)
+extern "C" void harness_semantic_errors()  /* vf: tier=quick bounds=60_erroneous_declaration/parameter/system/label_snippets(duplicate_and_conflicting_definitions,wrong_symbol_kinds,bad_struct/array/function/typedef_uses,unknown_templates)_x_new/old_syntax reach=end */
+{
+    struct Snip { int entry; const char* text; };
+    static const Snip SNIPS[] = {
+        {8, "int fn(int a) { return a; }"}, {8, "int dup() { return 1; } int dup() { return 2; }"}, {8, "int i() { return 1; }"}, {8, "int INT8_MAX() { return 1; }"}, {8, "void vf() { } int vf;"},
+        {8, "int i; clock i;"}, {8, "typedef int T_t; T_t T_t;"}, {8, "typedef int i;"}, {8, "struct { int a; int a; } s2;"}, {8, "struct { clock a; } s3 = { 1 };"}, {8, "int a3[0]; int a4[-1];"},
+        {8, "int a5[2] = { 1, 2, 3 };"}, {8, "int a6[2][2] = { 1, 2 };"}, {8, "const int c7; int b7[c7];"}, {8, "int f8(int f8) { return f8; }"}, {8, "int f9() { int f9; return f9(); }"}, {8, "void f10() { return 1; }"},
+        {8, "int f11() { }"}, {8, "int f12(int& r, int& r) { return r; }"}, {8, "int f13() { return nope(); }"}, {8, "int f14() { return fn(1); }"}, {8, "int f15() { return arr.f; }"}, {8, "int f16() { return r[0]; }"},
+        {8, "int f17() { return i(); }"}, {8, "chan priority i < c;"}, {8, "chan priority c < c;"}, {8, "urgent int u18;"}, {8, "broadcast clock b19;"}, {8, "meta clock m20;"}, {8, "const clock k21;"},
+        {8, "int[1, 0] r22; int[c, 2] r23;"}, {8, "scalar[0] s24; scalar[i] s25;"}, {8, "typedef struct { int a; } S26; S26 v26 = { 1, 2 };"}, {8, "int v27 = { 1 };"}, {8, "T_t v28[T_t] = { 1, 2, 3, 4, 5 };"},
+        {8, "import \"nolib.so\" { int ext(); };"}, {8, "int f29() { for (k : int) { } return 1; }"}, {8, "int f30() { for (k : chan) { } return 1; }"}, {8, "bool q31 = forall (k : clock) true;"}, {8, "int q32 = sum (k : r) 1;"},
+        {10, "int p, int p"}, {10, "int& i, clock& x, chan& c"}, {10, "const clock cx"}, {10, "int arr2[2][nope]"}, {10, "T_t T_t"},
+        {12, "PA = TT(1); PA = TT(2); system PA;"}, {12, "PA = TT(1, 2); system PA;"}, {12, "PA = TT(); system PA;"}, {12, "PA = i(1); system PA;"}, {12, "system i;"}, {12, "system TT, TT;"}, {12, "PA = TT(c); system PA;"},
+        {12, "PB(int z) = TT(z); PC = PB(); system PC;"}, {12, "TT = TT(1); system TT;"}, {12, "system TT < TT;"}, {12, "PA = PA(1); system PA;"},
+        {1, "fn > 0"}, {3, "fn = 1, K = 2, 3 = i"}, {4, "i!"}, {11, "i : int[0,2], i : int[0,1]"}, {2, "T_t <= 3"}, {5, "c"}, {0, "r + arr"}};
+    int old = vf_pick("!old_syntax", 2);
+    Fixture fx(old);
+    int k = vf_pick("!snippet", (int)(sizeof SNIPS / sizeof SNIPS[0]));
+    const Entry& en = ENTRIES[SNIPS[k].entry];
+    vf_assume(!old || (en.part != S_SELECT && en.part != S_SYNC && en.part != S_PROBABILITY));
+    vf_note(en.name); vf_note(SNIPS[k].text);
+    run_document_backend(fx, en, SNIPS[k].text);
+    vf_reach("end");
+}
+
+// nesting: the work must grow proportionally to the input, not exponentially in the nesting depth
+extern "C" void harness_nesting()  /* vf: tier=quick bounds=9_nesting_constructs(parentheses,unary,call,index,inline-if,quantifier,block,struct_initialiser,binary_chain)_x_depth_1..40(symbolic);accepted_model_through_TypeChecker;instruction_budget_linear_in_depth reach=end */
+{
+    int kind = vf_pick("!construct", 9), depth = vf_range("!depth", 1, 40);
+    if (depth > 12 && depth % 4) { vf_assume(0); }   // depths 1..12 and every fourth up to 40
+    std::string open, close, core = "i";
+    for (int d = 0; d < depth; d++) {
+        switch (kind) {
+        case 0: open += "("; close = ")" + close; break;
+        case 1: open += "-"; open += (d % 2 ? " " : "("); close = std::string(d % 2 ? "" : ")") + close; break;
+        case 2: open += "id1("; close = ")" + close; break;
+        case 3: open += "arr[id1("; close = ") % 3]" + close; break;
+        case 4: open += "(b ? "; close = " : 1)" + close; break;
+        case 5: open += "(forall (k" + std::to_string(d) + " : int[0,1]) "; close = ")" + close; core = "b"; break;
+        case 6: open += "{ "; close = " }" + close; core = "i = 1;"; break;
+        case 7: open += "{"; close = "}" + close; core = "1"; break;
+        case 8: open += "i + "; break;
+        }
+    }
+    std::string text = "int i; bool b; int arr[3]; int id1(int a) { return a; }\n";
+    if (kind == 6) text += "void blk() " + open + core + close + "\n";
+    else if (kind == 7) text += "";   // nested initialiser braces need a matching type; covered by the parser-only run below
+    else if (kind == 5) text += "bool q() { return " + open + core + close + "; }\n";
+    else text += "int q() { return " + open + core + close + "; }\n";
+    text += "process P() { state A; init A; } system P;\n";
+    Document doc;
+    // measured on the unchanged tree: about 30 k instructions per nesting level for the most expensive construct; a generous linear bound
+    vf_budget(6 * 1000 * 1000 + (long)depth * 400 * 1000);
+    bool threw = false;
+    try {
+        if (kind == 7) { DocumentBuilder b(doc); parse_XTA(("int z = " + open + core + close + ";").c_str(), &b, true, S_DECLARATION, "/d"); }
+        else parse_XTA(text.c_str(), &doc, true);
+    } catch (std::exception&) { threw = true; }
+    vf_budget(-1);
+    vf_notei("depth", depth); vf_notei("errors", (long)doc.get_errors().size());
+    if (kind != 7) {
+        if (doc.has_errors()) note_errors(doc);
+        // the bison stack is finite: beyond it the parser reports "memory exhausted" - a diagnostic, which is an allowed outcome
+        bool only_stack = doc.get_errors().size() == 1 && doc.get_errors()[0].msg.find("memory_exhausted") != std::string::npos;
+        vf_assert(!threw && (!doc.has_errors() || only_stack), "nested-model-accepted-or-stack-limit-reported");
+    }
     vf_reach("end");
 }
